@@ -13,18 +13,18 @@ set_option linter.unusedSectionVars false
 /-! ### registry changes outside the ancestors -/
 
 theorem lineage_agree {r r' : Registry} {c : Config} {n : Nat} {d : String} {L : Lineage}
-    (hr : ∀ a ∈ ancestors r n d, r'.lookup a = r.lookup a) (h : lineage r c n d = .ok L) :
+    (hr : ∀ a ∈ visited r n d, r'.lookup a = r.lookup a) (h : lineage r c n d = .ok L) :
     lineage r' c n d = .ok L := by
   induction n generalizing d L with
   | zero => simp [lineage_zero] at h
   | succ n ih =>
     obtain ⟨cls, pc, deps, h1, h2, h3, h4, h5⟩ := lineage_succ_ok.mp h
     have hd : r'.lookup d = some cls := by
-      rw [hr d ((mem_ancestors_succ h1).mpr (Or.inl rfl))]; exact h1
+      rw [hr d ((mem_visited_succ h1).mpr (Or.inl rfl))]; exact h1
     refine lineage_succ_ok.mpr ⟨cls, pc, deps, hd, h2, h3, ?_, h5⟩
     apply mapE_ok_of_forall _ h4
     intro x hx b hb
-    exact ih (fun a ha => hr a ((mem_ancestors_succ h1).mpr (Or.inr ⟨x, hx, ha⟩))) hb
+    exact ih (fun a ha => hr a ((mem_visited_succ h1).mpr (Or.inr ⟨x, hx, ha⟩))) hb
 
 /-! ### options no ancestor tracks -/
 
@@ -106,6 +106,57 @@ theorem trackedPart_congr_off {r : Registry} {c c' : Config} (hc : NodupKeys c) 
           (entryConfig_nodup cls (pluginConfig_nodup hc' hp'))]
         exact ⟨rfl, rfl, entryConfig_congr_off hcc (hun cls hl) hp hp'⟩
 
+/-! ### a tracked option does show up in the lineage entry -/
+
+theorem isOpt_of_isTracked {cls : PluginClass} {k : String} (h : isTracked cls k = true) : isOpt cls k = true := by
+  unfold isTracked at h
+  unfold isOpt
+  cases hf : cls.options.find? (·.name == k) with
+  | none => simp [hf] at h
+  | some o =>
+    rw [List.any_eq_true]
+    have h1 := List.find?_some hf
+    exact ⟨o, List.mem_of_find?_eq_some hf, by simpa using h1⟩
+
+theorem lookup_foldl_dictSet_of_not_mem (bases : List (String × String)) (a : Config) {k : String}
+    (hk : ∀ b ∈ bases, b.1 ≠ k) :
+    (bases.foldl (fun acc b => dictSet acc b.1 (.str b.2)) a).lookup k = a.lookup k := by
+  induction bases generalizing a with
+  | nil => rfl
+  | cons b bases ih =>
+    simp only [List.foldl_cons]
+    rw [ih _ (fun x hx => hk x (List.mem_cons_of_mem _ hx)), lookup_dictSet]
+    have : k ≠ b.1 := fun e => hk b (List.mem_cons_self ..) e.symm
+    simp [this]
+
+/-- the `configs` dict of the lineage entry holds `p.config[k]` for every key that is kept -/
+theorem entryConfig_lookup_kept {cls : PluginClass} {pc : Config} {k : String}
+    (hk : (if cls.child then keptChild cls k else isTracked cls k) = true)
+    (hb : cls.child = true → ∀ b ∈ cls.bases, b.1 ≠ k) :
+    (entryConfig cls pc).lookup k = pc.lookup k := by
+  rw [entryConfig_eq]
+  by_cases hc : cls.child = true
+  · simp only [hc, if_true] at hk ⊢
+    rw [lookup_foldl_dictSet_of_not_mem _ _ (hb hc), lookup_filter_key, hk]; rfl
+  · simp only [hc, Bool.false_eq_true, if_false] at hk ⊢
+    rw [lookup_filter_key, hk]; rfl
+
+/-- the value a tracked option has in the lineage entry: the context's, else the default -/
+theorem entryConfig_tracked_value {cls : PluginClass} {c pc : Config} {o : String} (h : pluginConfig cls c = .ok pc)
+    (hk : (if cls.child then keptChild cls o else isTracked cls o) = true)
+    (hb : cls.child = true → ∀ b ∈ cls.bases, b.1 ≠ o) :
+    (entryConfig cls pc).lookup o = (withDefaults cls.options c).lookup o := by
+  have htr : isTracked cls o = true := by
+    by_cases hc : cls.child = true
+    · simp only [hc, if_true] at hk
+      unfold keptChild at hk
+      exact (Bool.and_eq_true_iff.mp hk).2
+    · simpa [hc] using hk
+  rw [entryConfig_lookup_kept hk hb, pluginConfig_lookup h (fun hc => by
+    simp only [hc, if_true] at hk
+    exact keptChild_no_parent hk), isOpt_of_isTracked htr]
+  rfl
+
 /-! ### the JSON round trip of stored metadata is invisible to `hashablize` -/
 
 mutual
@@ -123,6 +174,9 @@ theorem canon_jsonRT : ∀ v : Val, canon (jsonRT v) = canon v
       simp only [canonPairs] at this
       rw [this]
   | .sset _ => rfl
+  | .bool _ => rfl
+  | .none => rfl
+  | .float _ _ _ _ => rfl
 theorem canonList_jsonRT : ∀ l : List Val, canonList (jsonRTList l) = canonList l
   | [] => rfl
   | v :: vs => by
@@ -205,13 +259,13 @@ theorem cfgEq_filter_iff {a b : Config} (ffo : List String) :
     · simp [hm]; exact h o hm
 
 theorem fuzzyMatches_iff {stored want : Lineage} {ff ffo : List String} (hs : LineageWF stored) (hw : LineageWF want) :
-    fuzzyMatches true stored want ff ffo = true ↔
+    fuzzyMatches .textEq stored want ff ffo = true ↔
       ∀ t, t ∉ ff →
         match stored.lookup t, want.lookup t with
         | none, none => True
         | some e, some e' => e.cls = e'.cls ∧ e.version = e'.version ∧ ∀ o, o ∉ ffo → CfgEqAt e.config e'.config o
         | _, _ => False := by
-  simp only [fuzzyMatches, if_true, decide_eq_true_eq]
+  simp only [fuzzyMatches, decide_eq_true_eq]
   rw [lineageCanon_eq_iff (nodupKeys_filterLineage (nodupKeys_storedLineage hs.1) ff ffo)
     (nodupKeys_filterLineage hw.1 ff ffo)]
   unfold LinEq
